@@ -101,9 +101,9 @@ func cmdCheck(prop, tier string) int {
 	if s := os.Getenv("VERIF_SEED"); s != "" {
 		seed, _ = strconv.Atoi(s)
 	}
-	cfg := runCfg{tier: tier, timeoutMs: 60000, jobs: 5}
+	cfg := runCfg{tier: tier, timeoutMs: 120000, jobs: 5}
 	if tier == "thorough" {
-		cfg.timeoutMs = 120000
+		cfg.timeoutMs = 300000
 		cfg.allSolver = true
 		cfg.jobs = 5
 	}
@@ -281,6 +281,13 @@ func cmdCheck(prop, tier string) int {
 		if c := s.specs.Contracts[k]; c != nil {
 			for _, a := range c.Assumed {
 				assumptions = append(assumptions, "assumed in contract of "+k+": "+a)
+			}
+			for _, invs := range c.LoopInv {
+				for _, inv := range invs {
+					if clauseHasTag(inv, "slow") && tier != "thorough" {
+						assumptions = append(assumptions, "loop invariant of "+k+" proved in the thorough tier only (solver time above the quick budget), assumed here: "+inv.Src)
+					}
+				}
 			}
 			for _, en := range c.Ensures {
 				if clauseHasTag(en, "assumed") {
